@@ -6,7 +6,7 @@
    calcPATSectionLength are re-translated from the source on every run. *)
 From Coq Require Import ZArith List Lia.
 Require Import Base.Bits Base.Iter Base.Wr Gen.Consts Gen.Types Gen.Preds Model.Packet Model.Psi.
-Require Import Model.Desc Spec.CrcSpec Spec.PsiSpec Proofs.PsiProofs Proofs.PsiParse Proofs.PsiParsePmt Proofs.PsiWritePmt.
+Require Import Model.Desc Spec.CrcSpec Spec.DvbSpec Spec.PsiSpec Proofs.PsiProofs Proofs.PsiParse Proofs.PsiParsePmt Proofs.PsiWritePmt Proofs.PsiDescLink Proofs.PsiParseSi Proofs.PsiSiLink Proofs.PsiUserDesc.
 Import ListNotations.
 Open Scope Z_scope.
 
@@ -131,12 +131,12 @@ Theorem C13_parse_pmt_nodesc : forall p filler ssi pb ext ver cni sn lsn pcr (xs
 Proof. exact parse_pmt_unit_nodesc. Qed.
 Print Assumptions C13_parse_pmt_nodesc.
 
-(* C13_write_pmt: writePSIData on a unit of one PMT section is, byte for byte, the reference encoding, RELATIVE to
+(* C13_write_pmt_rel: writePSIData on a unit of one PMT section is, byte for byte, the reference encoding, RELATIVE to
    C14's statement about descriptor loops, which enters as an explicit premise: for a descriptor list and its
    reference encoding (desc_enc), writeDescriptorsWithLength succeeds and emits `reserved(4) length(12) bytes`, and
    calcDescriptorsLength is the number of those bytes.  Any number of streams (induction), any stream types and
    PIDs (truncated to their slots on both sides), section within the 12-bit length. *)
-Theorem C13_write_pmt : forall (desc_enc : list Descriptor -> list Z -> Prop),
+Theorem C13_write_pmt_rel : forall (desc_enc : list Descriptor -> list Z -> Prop),
   (forall ds bytes, desc_enc ds bytes ->
      Z.of_nat (length bytes) < 4096 /\ calc_descriptors_length ds = Z.of_nat (length bytes) /\
      exists its, enc_descriptors_with_length ds = Ok its /\ items_bytes_ok its /\
@@ -155,7 +155,86 @@ Theorem C13_write_pmt : forall (desc_enc : list Descriptor -> list Z -> Prop),
         (PSISectionSyntaxHeader_CurrentNextIndicator sh) (PSISectionSyntaxHeader_SectionNumber sh)
         (PSISectionSyntaxHeader_LastSectionNumber sh) pcr pbytes (map stream_spec xs)).
 Proof. exact write_pmt. Qed.
+Print Assumptions C13_write_pmt_rel.
+
+(* C13_write_pmt: the premise discharged with C14's lemmas: desc_bytes ds bytes says that ds is in C14's domain
+   (no body above 255 bytes, loop below 4096, the writer succeeds with byte content) and bytes are the bytes
+   writeDescriptors emits for it (whose TLV structure and length bytes C14_len describes).  writePSIData on one
+   PMT section with such descriptor loops is pointer_field, filler and the reference section layout
+   (ISO 13818-1 2.4.4.8) around those descriptor bytes, CRC_32 included -- any number of streams. *)
+Theorem C13_write_pmt : forall p c h sh d ext_pn pcr pds pbytes xs, 0 <= p < 256 ->
+  PSISectionHeader_TableID h = 2 -> PSISectionHeader_SectionLength h > 0 ->
+  PSISectionSyntaxData_PMT d = Some {| PMTData_ElementaryStreams := map stream_value xs; PMTData_PCRPID := pcr;
+                                       PMTData_ProgramDescriptors := pds; PMTData_ProgramNumber := ext_pn |} ->
+  desc_bytes pds pbytes -> Forall (wstream_ok desc_bytes) xs ->
+  9 + Z.of_nat (length pbytes) + Z.of_nat (length (flat_map stream_bytes xs)) + 4 < 4096 ->
+  write_psi_data {| PSIData_PointerField := p; PSIData_Sections := [mk_section c h sh d] |} =
+  Ok (p :: repeat 0 (Z.to_nat p) ++
+      spec_pmt_section (PSISectionHeader_SectionSyntaxIndicator h) (PSISectionHeader_PrivateBit h)
+        (PSISectionSyntaxHeader_TableIDExtension sh) (PSISectionSyntaxHeader_VersionNumber sh)
+        (PSISectionSyntaxHeader_CurrentNextIndicator sh) (PSISectionSyntaxHeader_SectionNumber sh)
+        (PSISectionSyntaxHeader_LastSectionNumber sh) pcr pbytes (map stream_spec xs)).
+Proof. exact write_pmt_closed. Qed.
 Print Assumptions C13_write_pmt.
+
+(* ---- SDT, NIT, EIT, TOT (EN 300 468 5.2) ----
+   C13_parse_sdt / _nit / _eit / _tot: for every well-formed section of these types -- both SDT ids (0x42, 0x46), both
+   NIT ids (0x40, 0x41), all 34 EIT ids (0x4e..0x6f), the TOT (0x73); any number of services / transport streams /
+   events (induction over the lists), all identifier values, every running_status / free_CA / EIT flag value --
+   parsePSISection on the reference encoding (Spec/PsiSpec.v) yields exactly the content with every generic header
+   field and the CRC_32, wherever the section lies in a unit (sec_parses, so the sections can be mixed freely in
+   C13_multi).  MJD/BCD times and durations are C15's encodings (c15_time / c15_dur: MJD 15079..65535, two BCD
+   digits per field), discharged with C15's decode theorems.  Descriptor loops are ABSTRACTED as for the PMT:
+   desc_enc relates a descriptor list to its bytes; the two premises say such bytes are bytes (< 4096 of them) and
+   that parseDescriptors inverts `4 bits, length(12), bytes` wherever it lies -- C14's round trip, which C14 does
+   not provide as a theorem yet (C14_tlv gives the framing only).  The premises are satisfiable: no_desc16 (empty
+   loops) fulfils them (C13_no_desc_premises), which closes the four theorems for sections without descriptors. *)
+Theorem C13_no_desc_premises : desc_premises no_desc16.
+Proof. exact no_desc_premises. Qed.
+Print Assumptions C13_no_desc_premises.
+
+(* the premises also hold for loops of user-defined (private) descriptors: tags 0x80..0xfe, bodies of 0..255
+   arbitrary bytes, any number of them below 4096 bytes -- proved against the real model of parseDescriptors.  So
+   the decoding theorems of all six table types are closed for sections whose descriptor loops consist of private
+   descriptors (and, trivially, for empty loops). *)
+Theorem C13_user_desc_premises : desc_premises ud_desc.
+Proof. exact ud_desc_premises. Qed.
+Print Assumptions C13_user_desc_premises.
+
+Theorem C13_pmt_section_parses_p : forall desc_enc, desc_premises desc_enc ->
+  forall ssi pb ext ver cni sn lsn pcr pds pbytes xs, pmt_wf desc_enc ext ver sn lsn pcr pds pbytes xs ->
+  sec_parses (spec_pmt_section ssi pb ext ver cni sn lsn pcr pbytes (map stream_spec xs))
+             (pmt_section_value ssi pb ext ver cni sn lsn pcr pds pbytes xs).
+Proof. exact pmt_sec_parses_p. Qed.
+Print Assumptions C13_pmt_section_parses_p.
+
+Theorem C13_parse_sdt : forall desc_enc, desc_premises desc_enc ->
+  forall tid ssi pb ext ver cni sn lsn onid xs, sdt_wf desc_enc tid ext ver sn lsn onid xs ->
+  sec_parses (spec_section tid ssi pb (spec_sdt_body ext ver cni sn lsn onid (map sv_spec xs)))
+             (sdt_section_value tid ssi pb ext ver cni sn lsn onid xs).
+Proof. exact sdt_parses_p. Qed.
+Print Assumptions C13_parse_sdt.
+
+Theorem C13_parse_nit : forall desc_enc, desc_premises desc_enc ->
+  forall tid ssi pb ext ver cni sn lsn nds nbytes xs, nit_wf desc_enc tid ext ver sn lsn nds nbytes xs ->
+  sec_parses (spec_section tid ssi pb (spec_nit_body ext ver cni sn lsn nbytes (map ts_spec xs)))
+             (nit_section_value tid ssi pb ext ver cni sn lsn nds nbytes xs).
+Proof. exact nit_parses_p. Qed.
+Print Assumptions C13_parse_nit.
+
+Theorem C13_parse_eit : forall desc_enc, desc_premises desc_enc ->
+  forall tid ssi pb ext ver cni sn lsn tsid onid slsn ltid xs,
+  eit_wf desc_enc c15_time c15_dur tid ext ver sn lsn tsid onid slsn ltid xs ->
+  sec_parses (spec_section tid ssi pb (spec_eit_body ext ver cni sn lsn tsid onid slsn ltid (map ev_spec xs)))
+             (eit_section_value tid ssi pb ext ver cni sn lsn tsid onid slsn ltid xs).
+Proof. exact eit_parses_p. Qed.
+Print Assumptions C13_parse_eit.
+
+Theorem C13_parse_tot : forall desc_enc, desc_premises desc_enc ->
+  forall ssi pb t tb ds bytes, c15_time t tb -> desc_enc ds bytes -> 7 + Z.of_nat (length bytes) + 4 < 4096 ->
+  sec_parses (spec_section 115 ssi pb (spec_tot_body tb bytes)) (tot_section_value ssi pb t tb ds bytes).
+Proof. exact tot_parses_p. Qed.
+Print Assumptions C13_parse_tot.
 
 (* non-vacuity: the hypotheses are satisfiable and the statements evaluate as claimed on a concrete PAT with
    edge values; two PAT sections followed by stuffing give two sections and the stop marker *)
@@ -181,4 +260,34 @@ Example C13_example_pmt :
   Ok {| PSIData_PointerField := 0;
         PSIData_Sections := [pmt_section_value true false 1 3 true 0 0 256 [] []
                                [(27, 256, [], []); (15, 8191, [], [])]] |}.
+Proof. vm_compute. reflexivity. Qed.
+
+(* an SDT with two services, an EIT with one event (2000-01-01 12:34:56, 01:30:00) and a TOT, empty descriptor
+   loops, followed by stuffing: decoded by the model exactly as the theorems say *)
+Example C13_example_si :
+  let sdt := spec_section 66 true true (spec_sdt_body 1 2 true 0 0 3 [(10, true, false, 4, true, []); (11, false, true, 1, false, [])]) in
+  let eit := spec_section 78 true true (spec_eit_body 10 0 true 0 0 1 3 0 78
+               [(7, spec_time_bytes 51544 12 34 56, [bcd_byte 1; bcd_byte 30; bcd_byte 0], 4, false, [])]) in
+  let tot := spec_section 115 false true (spec_tot_body (spec_time_bytes 51544 12 34 56) []) in
+  parse_psi_data_bytes (0 :: sdt ++ eit ++ tot ++ [255]) =
+  Ok {| PSIData_PointerField := 0;
+        PSIData_Sections :=
+          [ sdt_section_value 66 true true 1 2 true 0 0 3
+              [mk_sdt_svc 10 true false 4 true [] []; mk_sdt_svc 11 false true 1 false [] []];
+            eit_section_value 78 true true 10 0 true 0 0 1 3 0 78
+              [mk_eit_ev 7 (spec_unix 51544 12 34 56) (spec_time_bytes 51544 12 34 56)
+                         (spec_duration_ns 1 30 0) [bcd_byte 1; bcd_byte 30; bcd_byte 0] 4 false [] []];
+            tot_section_value false true (spec_unix 51544 12 34 56) (spec_time_bytes 51544 12 34 56) [] [];
+            stop_section 255 ] |}.
+Proof. vm_compute. reflexivity. Qed.
+
+(* a PMT whose program and stream descriptor loops hold private descriptors (one with an empty body) *)
+Example C13_example_pmt_userdesc :
+  let pd := [(200, [1; 2; 3]); (254, [])] in
+  let sd := [(128, [255])] in
+  parse_psi_data_bytes (0 :: spec_pmt_section true false 1 3 true 0 0 256 (flat_map ud_enc pd)
+                                [(27, 256, flat_map ud_enc sd)]) =
+  Ok {| PSIData_PointerField := 0;
+        PSIData_Sections := [pmt_section_value true false 1 3 true 0 0 256 (map ud_value pd) (flat_map ud_enc pd)
+                               [(27, 256, map ud_value sd, flat_map ud_enc sd)]] |}.
 Proof. vm_compute. reflexivity. Qed.
